@@ -57,7 +57,7 @@ def cases(tier, seed):
         out.append({'id': 'writer:fx:' + rel, 'kind': 'fixture-writer', 'fixture': rel, 'converter': cn, 'rate': 4, 'cost': 2})
     # generated ZGY sources (pyzgy's writer): float sample axis, four derived header arrays, then optional crop / re-block
     for i in range(16 if tier == 'quick' else 120):
-        rate, bs = rng.choice(settings3) if i % 3 != 2 else (2, (4, 4, -1))
+        rate, bs = rng.choice(settings3) if i % 3 == 0 else (2, (4, 4, -1)) if i % 3 == 2 else rng.choice([s_ for s_ in settings3 if s_[1][:2] == (4, 4)])
         nI, nX = rng.choice([(8, 16), (16, 16), (9, 7), (5, 5), (2, 64), (3, 43), (10, 13), (70, 66)])
         out.append({'id': 'writer:zgy:%d' % i, 'kind': 'zgy-writer', 'zgy': conv.zgy_desc(rng, (nI, nX, rng.choice([5, 17, 64, 100]))), 'rate': rate,
                     'bs': list(bs), 'stage': [None, 'crop', 'reblock'][i % 3], 'cseed': rng.randrange(1 << 30), 'cost': 3})
